@@ -236,6 +236,8 @@ func VerifH_C15_RetrySameConn() {
 	k2 := []int{0, 2, 3}[kind2]
 	_ = call(cctx, k2, "2")
 	_ = re.Retry(cctx, cli)
+	// and a third, fresh request while the other two are still outstanding
+	_ = call(cctx, []int{0, 2, 3}[verifChoice("third", 3)], "3")
 	verifReach("reissued")
 	var ids []uint16
 	var marks []byte
@@ -253,21 +255,23 @@ func VerifH_C15_RetrySameConn() {
 			marks = append(marks, d.filters[0][1])
 		}
 	}
-	// packets on the wire: [first request (unless its write failed)], second request, re-issued first request
-	want := 3
+	// packets on the wire: [first request (unless its write failed)], second request, re-issued first request, third request
+	want := 4
 	if writeFails {
-		want = 2
+		want = 3
 	}
 	verifAssert(len(ids) == want, "C15.harness_packets")
 	if len(ids) != want {
 		return
 	}
-	second, reissued := ids[want-2], ids[want-1]
-	verifAssert(verifAnd(second != 0, reissued != 0), "C15.id_nonzero")
+	second, reissued, third := ids[want-3], ids[want-2], ids[want-1]
+	verifAssert(verifAnd(second != 0, verifAnd(reissued != 0, third != 0)), "C15.id_nonzero")
 	verifAssert(second != reissued, "C15.outstanding_ids_differ_on_one_connection")
+	verifAssert(verifAnd(third != second, third != reissued), "C15.fresh_id_unused_by_outstanding_requests")
 	if !writeFails {
 		orig := ids[0]
 		verifAssert(orig != second, "C15.outstanding_ids_differ_on_one_connection")
+		verifAssert(third != orig, "C15.fresh_id_unused_by_outstanding_requests")
 		if kind1 <= 1 {
 			verifAssert(reissued == orig, "C15.reissued_publish_keeps_its_identifier")
 		} else {
